@@ -262,7 +262,7 @@ func remoteSeeds(full bool) []string {
 	schemes := []string{"https://", "HTTPS://", "ssh://", "http://", "git://", ""}
 	users := []string{"", "u@", "u:p@"}
 	hosts := []string{"example.com", "EXAMPLE.com", "example.com:8080", "[::1]"}
-	paths := []string{"/repo.git", "/foo.tgz", "/foo.tar.gz", "/foo", "/a%2Fb.tgz", "/a b.tgz", "/team/%2Fmirror/repo.git", "/%2F%2Fx.tgz", "/a%2F/b.tgz", "/foo/", "/"}
+	paths := []string{"/repo.git", "/foo.tgz", "/foo.tar.gz", "/foo", "/a%2Fb.tgz", "/a b.tgz", "/team/%2Fmirror/repo.git", "/%2F%2Fx.tgz", "/a%2F/b.tgz", "/foo/", "/", "/my files/v1%2B2.tgz"}
 	subs := []string{"", "//sub", "//sub/dir", "//a b", "//a%20b", "//é", "//a@b", "//sub#f", "//.", "//..", "//a//b", "//", "//a/../b", "//a?b", "//%2e%2e/%2e%2e/x", "//a%2Fb", "//%2e"}
 	queries := []string{"", "?ref=main", "?ref=a&ref=b", "?depth=1", "?archive=tgz", "?archive=tar.gz", "?archive=zip", "?checksum=x", "?b=1&archive=tgz&a=2", "?", "?ref=a%20b", "?ref=%zz", "?archive=tgz&archive=tgz",
 		"?ref=main&depth=%zz", "?checksum=x;y=1", "?archive=tar%2Egz", "?%61rchive=tar.gz", "?xarchive=tar.gz&archive=tar.gz", "?ref=v1&ref=v2%zz", "?archive=tar.gz&x=archive%3Dtar.gz",
